@@ -281,12 +281,19 @@ def search(ctx):
     asserts = [norm(s.test) for s in fn.body if isinstance(s, ast.Assert)]
     ctx.ob('SEARCH', loc, 'a failed search is refused (all three vectors must have been found)', all(x in asserts for x in ('a_uvw is not None', 'c_uvw is not None', 'b_uvw is not None')), str(asserts), node=fn, key='asserts')
     # cutboxvector arms
-    tail = [s for s in fn.body if isinstance(s, ast.If) and "cutboxvector == 'c'" in norm(s.test)]
-    ctx.need(len(tail) == 1, 'free_surface_basis: cutboxvector arms not found')
+    # the statements between the last refusal of a failed search and the Miller-Bravais conversion orient the rows
+    last = max([i for i, s in enumerate(fn.body) if isinstance(s, ast.Assert)], default=None)
+    conv = [i for i, s in enumerate(fn.body) if isinstance(s, ast.If) and 'return_hexagonal' in norm(s.test)]
+    ctx.need(last is not None and conv and conv[-1] > last + 1, 'free_surface_basis: the statements that orient the rows by cutboxvector were not found')
+    tail = fn.body[last + 1:conv[-1]]
     A, B, C = symarray('a', (3,)), symarray('b', (3,)), symarray('c', (3,))
     for letter, want, pos in (('c', (A, B, C), 2), ('b', (B, C, A), 1), ('a', (C, A, B), 0)):
         ev = SymEval(module_aliases(ctx.mod(FSB)))
-        q = ev.block([tail[0]], [Path({'cutboxvector': letter, 'a_uvw': A, 'b_uvw': B, 'c_uvw': C})])
+        try:
+            q = ev.block(tail, [Path({'cutboxvector': letter, 'a_uvw': A, 'b_uvw': B, 'c_uvw': C})])
+        except WouldRaise:
+            q = []
+        q = [x for x in q if not getattr(x, 'returned', False)]
         u = q[0].env.get('uvws') if len(q) == 1 else None
         ok = u is not None and np.shape(u) == (3, 3) and all(equal(np.asarray(u[i], dtype=object), want[i], deep=False) for i in range(3))
         ctx.ob('SEARCH', loc, "cutboxvector='%s': rows are a cyclic permutation of (in-plane 1, in-plane 2, out-of-plane) with the out-of-plane vector in row %d" % (letter, pos), bool(ok), node=tail[0], key='arm ' + letter)
